@@ -461,7 +461,7 @@ def frame_diff(before, after, phase):
 
 def run(ctx):
     pyr = random.Random(ctx.seed)
-    ctx.proof_layer(allowed_axioms=(), coq_deps=["Corr/RunState"], gen=["model_state", "cm_repopulate", "cp_init", "cp_empty", "cp_shallow", "cp_deep", "st_init", "st_empty", "st_shallow", "st_deep", "ua_shallow", "ua_deep"])
+    ctx.proof_layer(allowed_axioms=(), coq_deps=["Corr/RunState"], gen=["model_state", "cm_repopulate", "cp_init", "cp_empty", "cp_shallow", "cp_deep", "st_init", "st_empty", "st_shallow", "st_deep", "ua_shallow", "ua_deep", "cp_size", "cp_members", "st_labels"])
     core.note_drift(ctx, ANCHORS)
     ncases = ctx.budget(300, 3000)
     data_rng = np.random.default_rng(5)
